@@ -78,6 +78,8 @@ func Backend(name, dir string) (driver.Conn, error) {
 		return fscache.Open("c", fscache.WithBaseDir(dir))
 	case "fsaes":
 		return fscache.Open("c", fscache.WithBaseDir(dir), fscache.WithEncryption(TestKeyB64))
+	case "fsmt": // update_mtime: a Get also touches the file it read
+		return fscache.Open("c", fscache.WithBaseDir(dir), fscache.WithUpdateMTime(true))
 	}
 	return nil, fmt.Errorf("unknown backend %q", name)
 }
